@@ -318,7 +318,8 @@ func allChecks() []CheckSpec {
 				{Fn: "verifC06AddLocal", Lemma: "local candidate arrival (real addCandidate): new => paired with every remote and published once; duplicate => rejected, its socket closed once, not published; invariant holds",
 					Bounds: "1 local + 2 remotes, new/duplicate", MustReach: []string{"duplicate", "new", "done"}},
 				{Fn: "verifC06RestartAndFailed", Lemma: "Restart and the Failed transition leave no pairs, index entries, candidates, selection or outstanding transactions; the pair id counter is not reset",
-					Bounds: "2+2 candidates, 4 pairs, a selection and an outstanding transaction", MustReach: []string{"restart", "failed", "done"}},
+					Bounds: "2+2 candidates, 4 pairs, a selection and an outstanding transaction; local candidates bare or started (receive loops), the first socket's Close succeeding or reporting an error", MustReach: []string{"restart", "failed", "socket-close-fails", "done"},
+					Cfg: func(c *HarnessCfg, tier int) { c.GoPolicy = "queue" }},
 			},
 			Assumptions: append([]string{
 				"integrity contract; taskloop.Run by contract (C10 assumed); the goroutine spawned by AddRemoteCandidate runs to completion immediately",
@@ -380,7 +381,7 @@ func allChecks() []CheckSpec {
 				{Fn: "verifC03DeferredPlain", Lemma: "two steps, controlled full agent (with or without an earlier accepted renomination): a plain USE-CANDIDATE on a not-yet-valid lower-priority pair, then its matched response: the selection stays on the higher-priority pair",
 					Bounds: "2 pairs, priorities 1..256, stored renomination value any 24 bits or absent", MustReach: []string{"after-renomination", "done"}},
 				{Fn: "verifC03Tick", Lemma: "one ContactCandidates tick: never changes the selection, preserves the invariant, USE-CANDIDATE only from a controlling agent on a Succeeded pair, lite controlled emits no request, recorded transaction flags equal the datagram's",
-					Bounds: "2 local + 1 remote, full and lite, both roles, symbolic pair states and request counts", MustReach: []string{"nomination-sent", "done"}},
+					Bounds: "2 local + 1 remote, full and lite, both roles, symbolic pair states and request counts", MustReach: []string{"nomination-sent", "disconnected", "done"}},
 			},
 			Assumptions: append([]string{
 				"MESSAGE-INTEGRITY contract (tag injective in key); CRC uninterpreted; transaction ids/clock arbitrary (clock steps <= 1 ms inside a step)",
